@@ -669,7 +669,7 @@ class CSSMatch(_DocumentNav):
             return True
 
         # Primary tag needs to match
-        if (r != '*' and r != s) or (r == '*' and slength == 1 and not s):
+        if (r != '*' and r != s) or (r == '*' and slength == 1 and not s) or not r:
             match = False
 
         rindex += 1
